@@ -287,12 +287,12 @@ def execute(plan, prop, out, tr):
                 ex = np.abs(npd(xn) - xr).max() / (1 + np.abs(xr).max() + np.sqrt(np.abs(Pe).max()))
                 eP = np.abs(npd(Pn) - Pr).max() / (np.abs(Pr).max() + 1e1 * np.abs(info["Pm"]).max() * 2.3e-16 / TOL * TS + 1e-300)
                 pri = "correlated" if offd else "diagonal"
-                if ex > tol:
+                if not (ex <= tol):
                     raise Violation("C13.mean", "%s step %d (%s prior, n=%d q=%d%s): posterior mean deviates from the "
                                     "Kalman predict-then-update by %.3e relative (tolerance %.1e)" %
                                     (filt, i, pri, n, q, "" if filt != "UKF" else ", k=%s" % k, ex, tol), i,
                                     "mean:%s:%s" % (filt, c["plant"]))
-                if eP > tol * 10:
+                if not (eP <= tol * 10):
                     raise Violation("C13.covariance", "%s step %d (%s prior, n=%d q=%d%s): posterior covariance deviates "
                                     "from the Kalman posterior by %.3e relative (tolerance %.1e)" %
                                     (filt, i, pri, n, q, "" if filt != "UKF" else ", k=%s" % k, eP, tol * 10), i,
@@ -334,7 +334,7 @@ def execute(plan, prop, out, tr):
                 level = min(0.6, max(0.25, 10 * ess + 50.0 / N + 50.0 / Ms))
                 thr = float(np.quantile(dz, level))
                 out.probe("pf:low-ess-judged")
-                if d1 > thr * (1 + 1e-6) + 1e-9:
+                if not (d1 <= thr * (1 + 1e-6) + 1e-9):
                     raise Violation("C13.pf", "PF step %d with degenerate weights (ESS %.4f, N=%d): the estimate's pre-image is %.1f "
                                     "(squared Mahalanobis) from the measurement, the best %.1f%% of an independent prior sample are "
                                     "within %.1f: the importance weights did not select the particles that explain y" %
@@ -345,7 +345,7 @@ def execute(plan, prop, out, tr):
                 out.probe("pf:judged")
                 var = 2 * np.diag(Mt0["A"] @ Ppost @ Mt0["A"].T) / (c["particles"] * ess) + 1e-300
                 z = np.abs(npd(xn) - mean) / np.sqrt(var)
-                if z.max() > 6.0:
+                if not (z.max() <= 6.0):
                     raise Violation("C13.pf", "PF step %d: estimate is %.1f sigma from the posterior mean of the particle "
                                     "model (N=%d, ESS %.2f)" % (i, z.max(), c["particles"], ess), i, "pf:mean")
         x_est, P = xn.detach(), Pn.detach()
